@@ -21,6 +21,12 @@ def check(ctx, rep):
     W.rule_M10(m, rep)
     W.rule_G1(m, rep)
     S.rule_A2_A3(ctx, rep)
+    # the adapter's own flush cannot fail after the BufWriter was drained (a failure there would leave `written` standing
+    # although the buffer is empty: the next metric that fits would be flushed out alone)
+    from .common import KeepOnly
+    S.rule_A1(ctx, KeepOnly(rep, ('/flush-is-noop',), 'A1f'), 'A1f')
     # the sink's own emit is lock + one writer call: no flush or second write of its own
     S.rule_lock_discipline(ctx, rep, 'G2', methods=('emit',))
     S.rule_writer_only_in_emit_flush(ctx, rep, 'G3')
+    # nor does the library flush a sink on its own (client Drop, getters ..): only on the user's request
+    S.rule_no_implicit_flush(ctx, rep, 'G4')
